@@ -174,7 +174,7 @@ class _Sched:
     """Deterministic two-thread scheduler: a scheduled thread blocks at every gate until the
     controller (main thread), walking the schedule produced by TLC, grants it one step."""
 
-    def __init__(self, steps, timeout=20.0):
+    def __init__(self, steps, timeout=10.0):
         import threading
         self.steps = steps
         self.cv = threading.Condition()
@@ -255,6 +255,7 @@ class _Recorder:
         self.names = {PKG[m] + ".mod": m for m in PKG}
         self.tree_names = set(self.names) | set(PKG.values())
         self.vers = spec.get("vers", {})
+        self.nogate = set(spec.get("nogate") or ())
         rec = self
         orig_cfs = be.cache_from_source
         self.orig_cfs = orig_cfs
@@ -338,7 +339,7 @@ class _Recorder:
             self.events.append(e)
 
     def gate(self, fr, name):
-        if self.sched is not None and fr.get("scheduled"):
+        if self.sched is not None and fr.get("scheduled") and name not in self.nogate:
             self.sched.arrive(fr["th"], name)
 
     def ensure_lookup(self, fr):
@@ -648,6 +649,7 @@ class Ctx:
         self.child_runs = 0
         self.marker_mode = None
         self.patch_mode = None
+        self.thread_aware = False      # the global is assigned, but consulted per thread (see _probe_patch)
         self.tables = None
         self.marker_of_conf = {}       # conf name -> real marker string
         self.tag_of_marker = {"": {"marked": False, "key": dict(NOKEY)}}
@@ -679,14 +681,15 @@ class Ctx:
     def run_child(self, tree, hook, order=None, schedule=None, vers=None):
         import subprocess
         spec = {"tree": tree, "common": self.common, "hook": hook, "order": order or [], "schedule": schedule,
-                "vers": vers or {}}
+                "vers": vers or {}, "nogate": ["Patch", "Restore"] if self.thread_aware else []}
         with self.lock:
             self.child_runs += 1
             n = self.child_runs
         sp = os.path.join(tree, "run%d.json" % n)
         with open(sp, "w") as fh:
             json.dump(spec, fh)
-        cp = subprocess.run([sys.executable, "-W", "ignore", "-c",
+        # -S: no site-packages (.pth start-up hooks); beartype comes from $PYTHONPATH = $VERIF_REPO
+        cp = subprocess.run([sys.executable, "-S", "-W", "ignore", "-c",
                              "from verifkit.drivers.c16 import child_main; child_main()", sp],
                             capture_output=True, text=True, env=self.env, timeout=300)
         for line in cp.stdout.splitlines():
@@ -753,7 +756,7 @@ class Ctx:
             if name is None:
                 return None, f"assignment to importlib's global outside any import: {e}"
             mid = tree_ids.get(name) or self.foreign_id(name)
-            if mid is None:
+            if mid is None or (self.thread_aware and ev in ("Patch", "Restore")):
                 continue
             is_foreign = mid.startswith("f")
             r = {"ev": ev, "th": e["th"], "m": mid}
@@ -1003,6 +1006,14 @@ def _slots_expected(ctx, st, m):
     return exp
 
 
+def _check_global(rep, out, beh):
+    """(I3) observed directly: what importlib's global names when the run ends."""
+    if not out.get("global_restored", True):
+        rep.violation({"global_not_restored": True},
+                      f"importlib._bootstrap_external.cache_from_source is still patched at the end of a run of "
+                      f"{beh['steps']}", beh)
+
+
 def _check_run(rep, ctx, beh, ri, r, exp_state, origin):
     """one real run against (a) the empty-cache reference = C16 itself, (b) I1 on the real files,
     (c) the faithful model's prediction (drift only)."""
@@ -1012,6 +1023,7 @@ def _check_run(rep, ctx, beh, ri, r, exp_state, origin):
                       f"import failed in run {ri} of {beh['steps']}: {out['errors']}", beh)
         return
     want = ctx.tables["want"]
+    _check_global(rep, out, beh)
     for m, b in sorted(out["behav"].items()):
         rep.count()
         c, v = r["hook"][m], r["vers"][m]
@@ -1045,15 +1057,63 @@ def _check_run(rep, ctx, beh, ri, r, exp_state, origin):
                                f"faithful model says {exp}")
 
 
-def _r2_sequential(rep, ctx, d, pool, tier, rnd):
+def _seq_configs(tier):
+    return [("seq1", dict(mods=["a"], confs=ALL_CONFS, threads=[1], maxsrc=2, maxruns=3), 200 if tier == "quick" else None),
+            ("seq2", dict(mods=["a", "b"], confs=["default", "nopep"], threads=[1], maxsrc=1 if tier == "quick" else 2,
+                          maxruns=2), 40 if tier == "quick" else 1500)]
+
+
+def _conc_kw(ctx):
+    return dict(mods=["a", "b"], confs=["default", "nopep"], threads=[1, 2], maxsrc=1, maxruns=1,
+                marker=ctx.marker_mode, patch=ctx.patch_mode, nest=False)
+
+
+def _launch_tlc(ctx, d, tier, tpool):
+    """all TLC runs over the faithful model (disciplines as detected), in parallel."""
     from verifkit import tlc
-    configs = [("seq1", dict(mods=["a"], confs=ALL_CONFS, threads=[1], maxsrc=2, maxruns=3), 420 if tier == "quick" else None),
-               ("seq2", dict(mods=["a", "b"], confs=["default", "nopep"], threads=[1], maxsrc=1 if tier == "quick" else 2,
-                             maxruns=2), 60 if tier == "quick" else 1500)]
-    for label, kw, limit in configs:
+    fut = {}
+    for label, kw, _ in _seq_configs(tier):
         cfg = _cfg(d, label, marker=ctx.marker_mode, patch=ctx.patch_mode, nest=False, inv="", **kw)
+        fut[label] = tpool.submit(tlc.run_tlc, "PycCache.tla", cfg, workers=4, coverage=True, dump_dot=os.path.join(d, label))
+    for inv in ("I1marked", "I1plain"):
+        cfg = _cfg(d, "conc_" + inv, inv="INVARIANT %s\n" % inv, **_conc_kw(ctx))
+        fut["conc_" + inv] = tpool.submit(tlc.run_tlc, "PycCache.tla", cfg, workers=4)
+    cfg = _cfg(d, "conc", inv="", **_conc_kw(ctx))
+    fut["conc"] = tpool.submit(tlc.run_tlc, "PycCache.tla", cfg, workers=4, coverage=True, dump_dot=os.path.join(d, "conc"))
+    return fut
+
+
+def _counterexample_case(rep, res, inv):
+    hook = next((st["hook"] for a, st in res.error_trace if st.get("phase") == "run"), None)
+    if hook is None:
+        rep.machinery("cannot read the hook assignment from TLC's counterexample")
+    return {"origin": f"TLC counterexample of {inv}", "hook": dict(hook),
+            "schedule": _schedule_of([a for a, _ in res.error_trace]), "final": None, "complete": False}
+
+
+def _probe_patch(rep, ctx, fut):
+    """The implementation assigns importlib's global.  Is the assignment consulted by OTHER threads
+    (PatchMode "unlocked") or only by the assigning thread's own hooked import ("private" in effect)?
+    Decided by replaying TLC's counterexample of I1marked for the unlocked discipline."""
+    res = fut["conc_I1marked"].result()
+    if res.violated != "I1marked":
+        rep.machinery("PycCache.tla (unlocked patch, 2 threads) does not violate I1marked")
+    case = _counterexample_case(rep, res, "I1marked")
+    beh = {"kind": "conc", "steps": [{"op": "run", "hook": case["hook"], "schedule": case["schedule"]}]}
+    runs, _ = ctx.exec_behaviour(beh)
+    r = runs[0]
+    if r["out"]["sched_problem"] or r["out"]["errors"]:
+        rep.machinery(f"cannot determine the patch discipline of the implementation: schedule {case['schedule']} -> "
+                      f"{r['out']['sched_problem']} {r['out']['errors']}")
+    bad = [(m, mk) for m, fs in r["dir"].items() for mk, s in fs.items() if (mk == "") == s["body"]["hooked"]]
+    return not bad
+
+
+def _r2_sequential(rep, ctx, d, pool, tier, rnd, fut):
+    from verifkit import tlc
+    for label, kw, limit in _seq_configs(tier):
         dot = os.path.join(d, label)
-        res = tlc.run_tlc("PycCache.tla", cfg, workers=8, coverage=True, dump_dot=dot)
+        res = fut[label].result()
         rep.tlc(res, f"faithful model ({ctx.marker_mode}/{ctx.patch_mode}) {label}: graph for replay")
         ignore = {"Patch", "Restore"} if ctx.patch_mode == "private" else {"Finish"} if ctx.patch_mode == "locked" else set()
         zero = [a for a in res.zero_actions() if a not in ignore and not (a == "EditSource" and kw["maxsrc"] == 1)]
@@ -1090,30 +1150,22 @@ def _schedule_of(trace_or_path):
     return steps
 
 
-def _r2_concurrent(rep, ctx, d, pool, tier, rnd):
+def _r2_concurrent(rep, ctx, d, pool, tier, rnd, fut):
     from verifkit import tlc
-    kw = dict(mods=["a", "b"], confs=["default", "nopep"], threads=[1, 2], maxsrc=1, maxruns=1,
-              marker=ctx.marker_mode, patch=ctx.patch_mode, nest=False)
     cases = []
     # (1) TLC's own counterexamples of I1 for the discipline under test, one per direction
     for inv in ("I1marked", "I1plain"):
-        cfg = _cfg(d, "conc_" + inv, inv="INVARIANT %s\n" % inv, **kw)
-        res = tlc.run_tlc("PycCache.tla", cfg, workers=4)
+        res = fut["conc_" + inv].result()
         rep.tlc(res, f"faithful model, 2 threads: {inv}")
         if res.violated:
-            hook = next((st["hook"] for a, st in res.error_trace if st.get("phase") == "run"), None)
-            if hook is None:
-                rep.machinery("cannot read the hook assignment from TLC's counterexample")
-            cases.append({"origin": f"TLC counterexample of {inv}", "hook": dict(hook),
-                          "schedule": _schedule_of([a for a, _ in res.error_trace]), "final": None, "complete": False})
+            cases.append(_counterexample_case(rep, res, inv))
     # (2) paths of the dumped graph
-    cfg = _cfg(d, "conc", inv="", **kw)
     dot = os.path.join(d, "conc")
-    res = tlc.run_tlc("PycCache.tla", cfg, workers=8, coverage=True, dump_dot=dot)
+    res = fut["conc"].result()
     rep.tlc(res, f"faithful model ({ctx.marker_mode}/{ctx.patch_mode}), 2 threads: graph for schedules")
     g = tlc.parse_dot(dot + ".dot")
     out = g.out()
-    n_sched = 150 if tier == "quick" else 1500
+    n_sched = 80 if tier == "quick" else 1500
     seen = set()
     starts = [(a, t) for a, t in out[g.init[0]]]
     tries = 0
@@ -1146,6 +1198,8 @@ def _r2_concurrent(rep, ctx, d, pool, tier, rnd):
         cases.append({"origin": "path of the dumped 2-thread graph", "hook": hook, "schedule": sched, "final": g.nodes[n],
                       "complete": True})
     rep.add("schedules_replayed", len(cases))
+    for c in cases[:6]:
+        c["follow"] = True            # consequences for later processes: a few cases suffice (same finding)
 
     def one(case):
         beh = {"kind": "conc", "steps": [{"op": "run", "hook": case["hook"], "schedule": case["schedule"]}]}
@@ -1153,7 +1207,7 @@ def _r2_concurrent(rep, ctx, d, pool, tier, rnd):
         r = runs[0]
         follow = None
         bad = [(m, mk, s) for m, fs in r["dir"].items() for mk, s in fs.items() if (mk == "") == s["body"]["hooked"]]
-        if bad:
+        if bad and case.get("follow"):
             # what a later process sees: hook every module (default) / none, on the cache left behind
             tree_steps = beh["steps"] + [{"op": "run", "hook": {m: "default" for m in case["hook"]}, "order": sorted(case["hook"])},
                                          {"op": "run", "hook": {m: "off" for m in case["hook"]}, "order": sorted(case["hook"])}]
@@ -1167,6 +1221,7 @@ def _r2_concurrent(rep, ctx, d, pool, tier, rnd):
         if r["out"]["sched_problem"]:
             rep.spec_drift(f"schedule could not be followed ({case['origin']}): {r['out']['sched_problem']} in {case['schedule']}")
             continue
+        _check_global(rep, r["out"], beh)
         if r["out"]["errors"]:
             rep.violation({"import_error": r["out"]["errors"][0][:120], "concurrent": True},
                           f"import failed under schedule {case['schedule']}: {r['out']['errors']}", beh)
@@ -1202,7 +1257,7 @@ def _r2_concurrent(rep, ctx, d, pool, tier, rnd):
 def _r3_traces(rep, ctx, d, tier, rnd):
     from verifkit import tlc
     from verifkit.util import write_file
-    cap = 30000 if tier == "quick" else 400000
+    cap = 20000 if tier == "quick" else 300000
     traces = list(ctx.traces)
     # first trace first (the very first hooked run of this check, with beartype's lazy imports)
     head, rest = traces[:1], traces[1:]
@@ -1309,8 +1364,17 @@ def run(rep, tier, seed):
         ok = _references(rep, ctx, d, pool)
         r1.result()
         if ok:
-            _r2_sequential(rep, ctx, d, pool, tier, rnd)
-            _r2_concurrent(rep, ctx, d, pool, tier, rnd)
+            with ThreadPoolExecutor(5) as tpool:
+                fut = _launch_tlc(ctx, d, tier, tpool)
+                if ctx.patch_mode == "unlocked" and _probe_patch(rep, ctx, fut):
+                    ctx.patch_mode, ctx.thread_aware = "private", True
+                    rep.note("the implementation assigns importlib's global but a concurrent unhooked import does not "
+                             "see it: modelled as PatchMode=private (Patch/Restore events dropped)")
+                    for f in fut.values():
+                        f.result()
+                    fut = _launch_tlc(ctx, d, tier, tpool)
+                _r2_sequential(rep, ctx, d, pool, tier, rnd, fut)
+                _r2_concurrent(rep, ctx, d, pool, tier, rnd, fut)
             _r3_traces(rep, ctx, d, tier, rnd)
         rep.add("interpreter_runs", ctx.child_runs)
     rep.cov["exhaustive"] = tier == "thorough"
